@@ -9,6 +9,13 @@ def run(c):
     # a direct connection never becomes an elevated caller's connection because a record appears under its port number later
     from checks import c07
     c07.late_record(c, "C03")
+    # "not running elevated" is what the kernel program records: is-root must be (uid == 0) for every caller, uid != gid
+    # included (linux-ebpf/ebpf_cgroup.c in the user-space shim, judged by spec/trace/EbpfTrace.tla; shared with C06)
+    from checks import c06
+    for f in c06.kernel_side_random(c, "c03k"):
+        if f["sig"].get("kind") in ("uid-from-gid", "record-admin", "record-logon"):
+            c.violation("the kernel program's record misstates whether the caller runs elevated: " + f["whats"][0],
+                        {"kind": "kernel-record-misstates-elevation"}, {"witness": f.get("witness"), "sites": f["sites"]})
 
 
 def replay(c, path):
